@@ -10,7 +10,7 @@
    NaN for the empty sample; and the observed IQR is within tolerance of Q(0.75)-Q(0.25) of the
    same specification.  Everything is over Q and closed under the global context. *)
 From MM Require Import Base.Num Base.GASort Model.Stream Proofs.Stream Model.Sample Model.Quantile Spec.Quantile
-  Proofs.Quantile Proofs.QuantileW Proofs.Sample Proofs.CheckBase Check.C10.
+  Proofs.Quantile Proofs.QuantileW Proofs.Sample Proofs.CheckBase Proofs.NumSound Check.C10.
 From Coq Require Import Qround Lia Lqa Permutation Sorted.
 Local Open Scope Q_scope.
 
@@ -71,9 +71,18 @@ Definition w_q_exact (ps : list (Q * Q)) (qo : Q * Z * xreal) : Prop :=
   exists v m, obs = XFin v /\ v == m /\ wq_at ps (totw ps * q) m.
 
 (* [code] is the verdict code: 0 ok, 1 borderline (some weighted query needed the window) *)
+(* exact order facts on the observed floats, no tolerance: every finite result lies between two
+   sample values (so a constant sample can only yield that constant), and the results of one
+   case are non-decreasing in q *)
+Definition order_facts (xs : list Q) (qs : list (Q * Z * xreal)) : Prop :=
+  (forall q st v, In (q, st, XFin v) qs -> xs <> [] ->
+     (exists a, In a xs /\ a <= v) /\ (exists b, In b xs /\ v <= b)) /\
+  (forall q1 st1 v1 q2 st2 v2, In (q1, st1, XFin v1) qs -> In (q2, st2, XFin v2) qs -> q1 <= q2 -> v1 <= v2).
+
 Definition case_ok (code : Z) (c : c10case) : Prop :=
   let '(sorted, hasw, xs, ws, qs, ist, iv, unm) := c in
   unm = 1%Z /\ (if hasw then length ws = length xs else ws = []) /\ (sorted = true -> StronglySorted Qle xs) /\
+  order_facts xs qs /\
   match xs with
   | [] => Forall nan_q_ok qs /\ ist = 0%Z /\ iv = XNaN
   | _ => if hasw
@@ -501,6 +510,32 @@ Qed.
 (* ====================================================================== *)
 (* one case, a history, the line                                            *)
 (* ====================================================================== *)
+Lemma in_range_b_sound xs qs : in_range_b xs qs = true ->
+  forall q st v, In (q, st, XFin v) qs -> xs <> [] -> (exists a, In a xs /\ a <= v) /\ (exists b, In b xs /\ v <= b).
+Proof.
+  intros H q st v Hin Hne. destruct xs as [|x xt]; [congruence|]. cbn [in_range_b] in H.
+  rewrite forallb_forall in H. specialize (H _ Hin). cbn in H. apply andb_prop in H. destruct H as [H1 H2].
+  apply Qle_bool_iff in H1. apply Qle_bool_iff in H2. split.
+  - exists (Qlmin x (x :: xt)). split; [|exact H1].
+    destruct (Qlmin_spec x (x :: xt)) as (_ & _ & [E|E]); [rewrite E; left; reflexivity|exact E].
+  - exists (Qlmax x (x :: xt)). split; [|exact H2].
+    destruct (Qlmax_spec x (x :: xt)) as (_ & _ & [E|E]); [rewrite E; left; reflexivity|exact E].
+Qed.
+Lemma mono_b_sound qs : mono_b qs = true ->
+  forall q1 st1 v1 q2 st2 v2, In (q1, st1, XFin v1) qs -> In (q2, st2, XFin v2) qs -> q1 <= q2 -> v1 <= v2.
+Proof.
+  intros H q1 st1 v1 q2 st2 v2 H1 H2 L. unfold mono_b in H. rewrite forallb_forall in H.
+  specialize (H _ H1). cbn in H. rewrite forallb_forall in H. specialize (H _ H2). cbn in H.
+  apply Qle_bool_iff in L. rewrite L in H. cbn in H. apply Qle_bool_iff. exact H.
+Qed.
+Lemma order_check_sound hasw xs sx qs : fst (order_check hasw xs sx qs) = None -> order_facts xs qs.
+Proof.
+  unfold order_check. cbv zeta.
+  destruct (in_range_b xs qs) eqn:A; cbn [negb]; [|discriminate].
+  destruct (mono_b qs) eqn:B; cbn [negb]; [|discriminate]. intros _.
+  split; [exact (in_range_b_sound xs qs A)|exact (mono_b_sound qs B)].
+Qed.
+
 Lemma check_case_eq sorted hasw xs ws qs ist iv unm :
   check_case (sorted, hasw, xs, ws, qs, ist, iv, unm) =
   if (if hasw then negb (length ws =? length xs)%nat else negb (length ws =? 0)%nat) then (V_MALFORMED, 0%Z, (-1)%Z, []) else
@@ -512,8 +547,11 @@ Lemma check_case_eq sorted hasw xs ws qs ist iv unm :
   let base := Z.lor (if hasw then T_WEIGHTED else 0) (if sorted then T_SORTED else 0) in
   match run_qs (csample sorted hasw xs ws) s' ps W wex (tol_unw xs) qs 0%Z 0%Z 0%Z with
   | (code, tag, pos, diag) =>
-      let tag' := match qs with [] => 0%Z | _ => Z.lor tag base end in
+      let oc := order_check hasw xs (s_xs s') qs in
+      let tag' := match qs with [] => 0%Z | _ => Z.lor (Z.lor tag base) (snd oc) end in
       if (code =? 2)%Z then (V_MISMATCH, tag', pos, diag)
+      else if match fst oc with Some _ => true | None => false end
+           then (V_MISMATCH, tag', (-4)%Z, match fst oc with Some w => [10%Z; w] | None => [] end)
       else if negb (unm =? 1)%Z then (V_MISMATCH, tag', (-2)%Z, [9%Z])
       else if iqr_ok s' xs ps W wex ist iv then (code, tag', (-1)%Z, [])
       else (V_MISMATCH, tag', (-3)%Z, match iqr s' with RVal e => 1%Z :: qdiag e | RNaN => [0%Z] | RPanic => [2%Z] end)
@@ -523,7 +561,7 @@ Proof. reflexivity. Qed.
 Lemma case_ok_mono v v' c : (v <= v')%Z -> case_ok v c -> case_ok v' c.
 Proof.
   destruct c as [[[[[[[sorted hasw] xs] ws] qs] ist] iv] unm]. unfold case_ok.
-  intros L (U & Hl & Hs & H). split; [exact U|]. split; [exact Hl|]. split; [exact Hs|].
+  intros L (U & Hl & Hs & Ho & H). split; [exact U|]. split; [exact Hl|]. split; [exact Hs|]. split; [exact Ho|].
   destruct xs as [|x0 xt]; [exact H|]. destruct hasw; [|exact H].
   destruct H as (ps & P & S & F & I & X). exists ps.
   split; [exact P|]. split; [exact S|]. split; [exact F|]. split; [exact I|]. intro. apply X. lia.
@@ -539,6 +577,8 @@ Proof.
   cbv zeta in H.
   destruct (run_qs _ _ _ _ _ _ qs 0%Z 0%Z 0%Z) as [[[code tag] pos] diag] eqn:R.
   destruct (code =? 2)%Z eqn:C2; [injection H as <- _ _ _; congruence|]. apply Z.eqb_neq in C2.
+  destruct (fst (order_check hasw xs (s_xs (csorted sorted hasw xs ws)) qs)) as [w|] eqn:OC; [injection H as <- _ _ _; congruence|].
+  apply order_check_sound in OC.
   destruct (negb (unm =? 1)%Z) eqn:U; [injection H as <- _ _ _; congruence|].
   apply Bool.negb_false_iff, Z.eqb_eq in U.
   destruct (iqr_ok _ xs _ _ _ ist iv) eqn:I; [|injection H as <- _ _ _; congruence].
@@ -550,7 +590,7 @@ Proof.
   { intros ->. apply Bool.negb_false_iff, Nat.eqb_eq in HL. destruct ws; [reflexivity|discriminate]. }
   assert (Hs : sorted = true -> StronglySorted Qle xs).
   { intros ->. cbn in HA. apply Bool.negb_false_iff in HA. apply asc_b_sound. exact HA. }
-  unfold case_ok. split; [exact U|]. split; [destruct hasw; auto|]. split; [exact Hs|].
+  unfold case_ok. split; [exact U|]. split; [destruct hasw; auto|]. split; [exact Hs|]. split; [exact OC|].
   destruct xs as [|x0 xt] eqn:Exs.
   - (* empty sample *)
     assert (Ec : csample sorted hasw [] ws = csample sorted hasw [] [] /\ csorted sorted hasw [] ws = csorted sorted hasw [] []).
@@ -607,3 +647,14 @@ Proof.
       exact (check_case_sound _ _ _ _ _ E Hc).
     + apply verdict_inj in H. destruct H as (<- & _). congruence.
 Qed.
+
+(* what the exact order facts give for a constant sample: the only admissible result is that constant *)
+Theorem order_facts_constant xs qs c : order_facts xs qs -> xs <> [] -> Forall (fun x => x == c) xs ->
+  forall q st v, In (q, st, XFin v) qs -> v == c.
+Proof.
+  intros [R _] Hne Hc q st v Hin. destruct (R q st v Hin Hne) as [(a & Ha & La) (b & Hb & Lb)].
+  rewrite Forall_forall in Hc. pose proof (Hc a Ha) as Ea. pose proof (Hc b Hb) as Eb. lra.
+Qed.
+Theorem case_ok_order code sorted hasw xs ws qs ist iv unm :
+  case_ok code (sorted, hasw, xs, ws, qs, ist, iv, unm) -> order_facts xs qs.
+Proof. unfold case_ok. tauto. Qed.
